@@ -104,8 +104,6 @@ func (impl Implementation) Dsteqr(compz lapack.EVComp, n int, d, e, z []float64,
 		down scaletype = iota + 1
 		up
 	)
-	var iscale scaletype
-
 	for {
 		if l1 > n-1 {
 			// Order eigenvalues and eigenvectors.
@@ -158,6 +156,7 @@ func (impl Implementation) Dsteqr(compz lapack.EVComp, n int, d, e, z []float64,
 		}
 
 		// Scale submatrix in rows and columns L to Lend
+		var iscale scaletype
 		anorm := impl.Dlanst(lapack.MaxAbs, lend-l+1, d[l:], e[l:])
 		switch {
 		case anorm == 0:
